@@ -595,6 +595,10 @@ func (r *walRun) run() string {
 			} else if r.afterCrash && !armed {
 				r.c.witness("C03", "open-fails-after-crash", "Open returns an error on a directory state left by a crash", r.line)
 			}
+			if res != "ok" && !armed && r.everFaulted && !reserved && (r.dirCodec == 0 || r.dirCodec == r.codecID) {
+				// C10: after I/O errors an Open into which no fault is injected succeeds
+				r.c.witness("C10", "open-fails-after-io-error", "Open, with no fault injected into it, returns an error on the directory earlier I/O errors left", r.line)
+			}
 		case "S":
 			k := int(parseU(ops[i+1]))
 			logs := make([]*raft.Log, k)
